@@ -493,7 +493,11 @@ class GraphParser:
                 if node == '':
                     chain.append(node)
                     continue
-                node = self.REC_NODE_OUT_OF_RANGE.sub('', node)
+                # (repeat: removing a leading node exposes the next one)
+                while True:
+                    node, nsubs = self.REC_NODE_OUT_OF_RANGE.subn('', node)
+                    if not nsubs or node == '':
+                        break
                 if node == '':
                     # For "foo => bar<err> => baz", stop at "bar<err>"
                     break
